@@ -145,6 +145,45 @@ func c19Callback(p *Prog, r *Report, cb *ssa.Function, rootF *types.Var) {
 		return
 	}
 	rawCerts := cb.Params[0]
+	// the callback may be a thin wrapper around a named function that is given the presented chain
+	hasVerify := func(f *ssa.Function) bool {
+		return callsDirectly(f, func(c ssa.CallInstruction) bool {
+			g := c.Common().StaticCallee()
+			return g != nil && g.String() == "(*crypto/x509.Certificate).Verify"
+		})
+	}
+	for hops := 0; hops < 2 && !hasVerify(cb); hops++ {
+		var next *ssa.Function
+		var nextRaw *ssa.Parameter
+		eachCall(cb, func(c ssa.CallInstruction) {
+			callee := c.Common().StaticCallee()
+			if callee == nil || !p.InRepo(callee) || callee.Blocks == nil {
+				return
+			}
+			for i, a := range c.Common().Args {
+				if a == ssa.Value(rawCerts) && i < len(callee.Params) {
+					// and its result is what the callback returns
+					returned := false
+					eachInstr(cb, func(in ssa.Instruction) {
+						if ret, ok := in.(*ssa.Return); ok && len(ret.Results) == 1 {
+							for _, o := range origins(ret.Results[0]) {
+								if o == c.(ssa.Value) {
+									returned = true
+								}
+							}
+						}
+					})
+					if returned {
+						next, nextRaw = callee, callee.Params[i]
+					}
+				}
+			}
+		})
+		if next == nil {
+			break
+		}
+		cb, rawCerts = next, nextRaw
+	}
 	// the Verify call
 	var verify *ssa.Call
 	eachCall(cb, func(c ssa.CallInstruction) {
